@@ -59,10 +59,13 @@ func (m *mySQLUndoInsertExecutor) ExecuteOn(ctx context.Context, dbType types.DB
 	for _, row := range afterImage.Rows {
 		pkValueList := make([]interface{}, 0)
 
-		for _, col := range row.Columns {
-			if col.KeyType == types.PrimaryKey.Number() {
-				pkValueList = append(pkValueList, col.Value)
-			}
+		// same key order as the WHERE clause built by generateDeleteSql
+		pkList, err := GetOrderedPkList(afterImage, row, dbType)
+		if err != nil {
+			return err
+		}
+		for _, col := range pkList {
+			pkValueList = append(pkValueList, col.Value)
 		}
 
 		if _, err = stmt.Exec(pkValueList...); err != nil {
